@@ -428,6 +428,9 @@ func main() {
 		}
 		// ---- histories: searches started from inside a callback of another search on the same tree
 		if n >= 2 {
+			// populations above 1000: the extracted model is quadratic there, so the histories are
+			// kept short (early interruptions, no complete inner searches, no goroutines)
+			light := n > 1000
 			bb := bound(items)
 			corners := []ibox{
 				{bb.minx - 1, bb.miny - 1, bb.minx - 1, bb.miny - 1},
@@ -467,15 +470,23 @@ func main() {
 					j := pos
 					pos++
 					if at[j] {
+						kmax := n + 1
+						if light {
+							kmax = 16
+						}
 						switch j % 4 {
 						case 0:
-							runInner("P", q2, n+1, "s") // a complete inner PrioritySearch
+							if light {
+								runInner("P", q2, r.Intn(kmax), "s")
+							} else {
+								runInner("P", q2, n+1, "s") // a complete inner PrioritySearch
+							}
 						case 1:
 							runInner("N", q2, 0, "s")
 						case 2:
-							runInner("P", q2, r.Intn(n+1), pickAct(j))
+							runInner("P", q2, r.Intn(kmax), pickAct(j))
 						default:
-							runInner("R", mirror(q), r.Intn(n+1), pickAct(j))
+							runInner("R", mirror(q), r.Intn(kmax), pickAct(j))
 						}
 					}
 					return cb0(id)
@@ -509,13 +520,19 @@ func main() {
 				q, q2 = corners[2], corners[3]
 			}
 			enclosing := ibox{bb.minx - 1, bb.miny - 1, bb.maxx + 1, bb.maxy + 1}
-			runOuter("P", q, q2, n+1, "s", positions(n <= 24))
-			runOuter("P", q, q2, n+1, "s", map[int]bool{0: true})
-			runOuter("P", q2, q, r.Intn(n+1), pickAct(r.Intn(3)), positions(false))
-			runOuter("R", enclosing, q2, n+1, "s", positions(n <= 12))
-			runOuter("R", enclosing, q, r.Intn(n+1), pickAct(r.Intn(3)), positions(false))
+			if light {
+				runOuter("P", q, q2, 4+r.Intn(16), pickAct(r.Intn(3)), positions(false))
+				runOuter("P", q2, q, 4+r.Intn(16), pickAct(r.Intn(3)), map[int]bool{0: true, 1: true, 2: true, 3: true})
+				runOuter("R", enclosing, q2, 4+r.Intn(16), pickAct(r.Intn(3)), positions(false))
+			} else {
+				runOuter("P", q, q2, n+1, "s", positions(n <= 24))
+				runOuter("P", q, q2, n+1, "s", map[int]bool{0: true})
+				runOuter("P", q2, q, r.Intn(n+1), pickAct(r.Intn(3)), positions(false))
+				runOuter("R", enclosing, q2, n+1, "s", positions(n <= 12))
+				runOuter("R", enclosing, q, r.Intn(n+1), pickAct(r.Intn(3)), positions(false))
+			}
 			// ---- a few goroutine-concurrent searches on the shared tree
-			if i%4 == 0 && n >= 4 {
+			if i%4 == 0 && n >= 4 && !light {
 				const G = 4
 				type res struct {
 					kind, act, ret string
